@@ -15,6 +15,14 @@ What is kernel-checked here
                              (every accepted `ms`) is false — `and_v(X,and_v(Y,Z))` comes back
                              re-associated — and is refuted on a witness; `roundtrip_bytes`
                              composes T2a and T3 on bytes
+* T4  `decode_canonical`      the decoder never accepts a script that is not the encoding of the
+                             miniscript it returns: `decode_with_validation_params(bs) = ms ⇒
+                             encode(ms) = bs` (parser half `decode_canonical_tokens` by a
+                             specification per nonterminal chained along the run; lexer half
+                             `lex_canonical`)
+* T5  `norm_encode` / `norm_type` / `norm_sem`  the normal form the decoder returns has the same
+                             opcodes, the same type and the same spending condition (C07's
+                             `MsSem.sem`) as the original, for every well-typed miniscript
 * `lex_total`, `decode_total` termination (fuel is irrelevant / suffices)
 * `decode_no_panic`          no `unwrap`/`assert` of `decode` can fire, for ANY token list
 -/
@@ -22,11 +30,14 @@ import MsVerif.Lemmas.LexEncode
 import MsVerif.Lemmas.LexCanon
 import MsVerif.Lemmas.DecodeEncode
 import MsVerif.Lemmas.DecodeNoPanic
+import MsVerif.Lemmas.DecodeCanonBytes
+import MsVerif.Lemmas.NormEncode
+import MsVerif.Lemmas.NormType
 import MsVerif.Lemmas.TokensNorm
 import MsVerif.Lemmas.DecodeToy
 
 namespace MsVerif.C04
-open MsVerif Script LexL DecodeL TokL
+open MsVerif Script LexL DecodeL TokL NormL
 
 /-! ### termination -/
 
@@ -144,6 +155,24 @@ example : form .A Toy.m1 = true ∧ DecOk Toy.dec Toy.env .segwitv0 Toy.m1 := by
   repeat' apply And.intro
   all_goals first | rfl | decide
 
+/-- non-vacuity with `andor`, `thresh`, `multi`, hashes and a lock (Segwitv0) -/
+example : decodeToks Toy.dec Toy.env .segwitv0 (tokens Toy.env .segwitv0 Toy.m3) = .ok (Toy.m3, []) := by
+  refine decode_encode _ _ _ _ (by decide) ?_
+  simp only [Toy.m3, Toy.pk, DecOk, DecOkL, FullKeyOk]
+  repeat' apply And.intro
+  all_goals first
+    | rfl | decide
+    | (intro x hx; simp at hx; rcases hx with rfl | rfl | rfl <;> exact ⟨rfl, by decide⟩)
+
+/-- non-vacuity with `multi_a`, `or_i`, `after` and a hash (Taproot, x-only keys) -/
+example : decodeToks Toy.decX Toy.envX .tap (tokens Toy.envX .tap Toy.m4) = .ok (Toy.m4, []) := by
+  refine decode_encode _ _ _ _ (by decide) ?_
+  simp only [Toy.m4, Toy.vpk, Toy.pk, DecOk, XKeyOk]
+  repeat' apply And.intro
+  all_goals first
+    | rfl | decide
+    | (intro x hx; simp at hx; rcases hx with rfl | rfl | rfl <;> exact ⟨rfl, by decide⟩)
+
 /-- the naive statement ("for every `ms` that `from_ast` accepts") -/
 def decode_encode_full : Prop :=
   ∀ (dec : AtomDec) (env : KeyEnv) (ctx : Ctx) (ms : Ms), DecOk dec env ctx ms →
@@ -184,6 +213,55 @@ theorem norm_raises_height_witness :
     let ms : Ms := .andV (.verify (.zeroNotEqual (Toy.pk 1))) (.andV (Toy.vpk 2) (Toy.pk 3))
     (extOf Toy.env .tap (norm ms)).treeHeight = (extOf Toy.env .tap ms).treeHeight + 1 := by
   decide +kernel
+
+/-! ### the normal form has the same script, type and spending condition -/
+
+/-- same encoding, opcode for opcode (no hypothesis) -/
+theorem norm_encode (env : KeyEnv) (ctx : Ctx) (ms : Ms) : encode env ctx (norm ms) = encode env ctx ms :=
+  encode_norm env ctx ms
+
+/-- same type (correctness and malleability) for every well-typed miniscript -/
+theorem norm_type (ms : Ms) (t : Ty) (h : typeOf ms = some t) : typeOf (norm ms) = some t :=
+  typeOf_norm ms t h
+
+/-- same spending condition (the trusted specification `MsSem.sem` of C07) in every world, for
+every well-typed miniscript.  (Typing is needed: `or_d(and_v(X,Y),Z)` would become
+`and_v(X,or_d(Y,Z))`, but `or_d` rejects a non-dissatisfiable first argument.) -/
+theorem norm_sem (W : Pol.World) (ms : Ms) (t : Ty) (h : typeOf ms = some t) :
+    MsSem.sem W (norm ms) = MsSem.sem W ms :=
+  sem_norm W ms t h
+
+example : typeOf Toy.m2 = typeOf (norm Toy.m2) ∧ (typeOf Toy.m2).isSome = true := by
+  constructor
+  · cases h : typeOf Toy.m2 with
+    | none => exact absurd h (by decide +kernel)
+    | some t => exact (norm_type _ t h).symm
+  · decide +kernel
+
+/-- the round trip of an accepted, well-typed `ms` whose normal form `from_ast` accepts: the
+decoder returns `norm ms`, which has byte-identical script, identical type and identical
+spending condition -/
+theorem roundtrip_preserves (dec : AtomDec) (env : KeyEnv) (ctx : Ctx) (ms : Ms) (t : Ty)
+    (hty : typeOf ms = some t) (hform : form .A (norm ms) = true) (hok : DecOk dec env ctx (norm ms)) :
+    ∃ d, decodeToks dec env ctx (tokens env ctx ms) = .ok (d, []) ∧
+      encode env ctx d = encode env ctx ms ∧ typeOf d = some t ∧
+      ∀ W, MsSem.sem W d = MsSem.sem W ms :=
+  ⟨norm ms, decode_encode_norm dec env ctx ms hform hok, norm_encode env ctx ms, norm_type ms t hty,
+    fun W => norm_sem W ms t hty⟩
+
+example : ∃ d, decodeToks Toy.dec Toy.env .segwitv0 (tokens Toy.env .segwitv0 Toy.m2) = .ok (d, []) ∧
+    encode Toy.env .segwitv0 d = encode Toy.env .segwitv0 Toy.m2 ∧ typeOf d = typeOf Toy.m2 := by
+  cases h : typeOf Toy.m2 with
+  | none => exact absurd h (by decide +kernel)
+  | some t =>
+    have hn : norm Toy.m2 = Toy.m1 := by decide +kernel
+    obtain ⟨d, h1, h2, h3, _⟩ := roundtrip_preserves Toy.dec Toy.env .segwitv0 Toy.m2 t h
+      (by rw [hn]; decide) (by
+        rw [hn]
+        simp only [Toy.m1, Toy.vpk, Toy.pk, DecOk]
+        repeat' apply And.intro
+        all_goals first | rfl | decide)
+    exact ⟨d, h1, h2, h3⟩
 
 /-- the normal form and the de-sugaring keep the token list (so the re-encoding of what the
 decoder returns is byte-identical, by `lex_serialize` on both sides) -/
@@ -272,5 +350,56 @@ example : decodeScript Toy.dec Toy.env .segwitv0 (serialize (encode Toy.env .seg
   · simp only [Toy.m1, Toy.vpk, Toy.pk, DecOk]
     repeat' apply And.intro
     all_goals first | rfl | decide
+
+/-! ### T4: the decoder accepts only canonical encodings -/
+
+/-- parser half: the tokens `decode` consumed are exactly the tokens of the miniscript it
+returns, for every well-formed token list (`WfAll`: what the lexer produces) and every reverse
+lookup that is sound for `env` (`DecSound`) — full decoder, thresholds and multisigs included -/
+theorem decode_canonical_tokens (dec : AtomDec) (env : KeyEnv) (ctx : Ctx) (hs : DecSound dec env ctx)
+    (toks rest : List Token) (ms : Ms) (hw : WfAll toks)
+    (h : decodeToks dec env ctx toks = .ok (ms, rest)) :
+    toks = rest.reverse ++ tokens env ctx ms := by
+  have := congrArg List.reverse (decodeToks_canonical hs hw h)
+  simpa [rt] using this
+
+/-- T4: a script that `decode_with_validation_params` (with `Ctx::CONSENSUS` or `MAX`) accepts
+is byte for byte the encoding of the miniscript returned — no hypothesis on the script -/
+theorem decode_canonical (p : DecParams) (dec : AtomDec) (env : KeyEnv) (ctx : Ctx)
+    (hs : DecSound dec env ctx) (bs : Bytes) (ms : Ms) (h : decodeScriptP p dec env ctx bs = .ok ms) :
+    encodeBytes env ctx ms = bs :=
+  decodeScriptP_canonical hs h
+
+/-- the same for `decode_consensus` -/
+theorem decode_consensus_canonical (dec : AtomDec) (env : KeyEnv) (ctx : Ctx)
+    (hs : DecSound dec env ctx) (bs : Bytes) (ms : Ms) (h : decodeScript dec env ctx bs = .ok ms) :
+    encodeBytes env ctx ms = bs :=
+  decodeScriptP_canonical hs h
+
+/-- hence decoding is injective: two accepted scripts with the same miniscript are equal -/
+theorem decode_injective (p q : DecParams) (dec : AtomDec) (env : KeyEnv) (ctx : Ctx)
+    (hs : DecSound dec env ctx) (bs₁ bs₂ : Bytes) (ms : Ms)
+    (h1 : decodeScriptP p dec env ctx bs₁ = .ok ms) (h2 : decodeScriptP q dec env ctx bs₂ = .ok ms) :
+    bs₁ = bs₂ :=
+  (decode_canonical p dec env ctx hs bs₁ ms h1).symm.trans (decode_canonical q dec env ctx hs bs₂ ms h2)
+
+/-- the lexer's outputs meet the token hypothesis of `decode_canonical_tokens` -/
+theorem lex_wellformed (bs : Bytes) (ts : List Token) (h : lex bs = .ok ts) : WfAll ts := lex_wf h
+
+example : DecSound Toy.decS Toy.env .segwitv0 := Toy.decS_sound _
+
+/-- witness with `andor`, `thresh`, `multi`, two hash kinds and a lock: it is accepted, so by
+`decode_canonical` its bytes are the encoding (here used in the direction accepted ⇒ canonical) -/
+example : ∃ bs, decodeScript Toy.decS Toy.env .segwitv0 bs = .ok Toy.m3 ∧
+    encodeBytes Toy.env .segwitv0 Toy.m3 = bs := by
+  have h : decodeScript Toy.decS Toy.env .segwitv0 (serialize (encode Toy.env .segwitv0 Toy.m3)) = .ok Toy.m3 := by
+    refine roundtrip_bytes _ _ _ _ ?_ (by decide) ?_ (by decide +kernel) (by decide +kernel) (by decide +kernel)
+    · simp only [Toy.m3, Toy.pk, AtomsOk, AtomsOkL, keyLenOk, Toy.env, hashLen]; simp
+    · simp only [Toy.m3, Toy.pk, DecOk, DecOkL, FullKeyOk]
+      repeat' apply And.intro
+      all_goals first
+        | rfl | decide
+        | (intro x hx; simp at hx; rcases hx with rfl | rfl | rfl <;> exact ⟨rfl, by decide⟩)
+  exact ⟨_, h, decode_consensus_canonical _ _ _ (Toy.decS_sound _) _ _ h⟩
 
 end MsVerif.C04
